@@ -166,6 +166,13 @@ def run(ctx) -> None:
     check_cache_invalidation(ctx, "C08.R4", families=("Graph",))
     check_default_existential(ctx, "C08.R4")
 
+    # sufficiency: what the specification reports as optional because it is bound (the merged table: own bindings and
+    # those surfaced from nested graphs) is also what the scheduler accepts as available — else supplying all required
+    # inputs is accepted and a node is silently never ready
+    from .c01 import check_readiness_vs_resolver
+
+    check_readiness_vs_resolver(ctx, "C08.R4")
+
     # ---- R5 ---------------------------------------------------------------------
     vi = db.func("runners._shared.validation.validate_inputs")
     vcfg = ctx.cfg(vi)
